@@ -169,3 +169,28 @@ MUTANTS += [
     dict(id="x10-trace-err-maps-error", base="benign/C10/A.diff", fires=["C10"], key="error-path", edits=[("src/ctap2.rs",
          "trace_err(self.reset()).map(|()| Response::Reset)", "trace_err(self.reset()).map_err(|_| Error::Other).map(|()| Response::Reset)")]),
 ]
+
+# mutated refactorings, second benign round (benign2/): each starts from a behaviour-preserving rewrite and breaks it
+MUTANTS += [
+    dict(id="x18-handwritten-repr-accepts-zero", base="benign2/C18/A.diff", fires=["C18", "C15"], key="serde-de", edits=[("src/ctap2/credential_management.rs",
+         "            OPTIONAL => Ok(Self::Optional),", "            OPTIONAL | 0 => Ok(Self::Optional),")]),
+    dict(id="x18-handwritten-str-de-accepts-uppercase", base="benign2/C15/B.diff", fires=["C18", "C15"], key="serde", edits=[("src/ctap2.rs",
+         "        Self::try_from(identifier).map_err(serde::de::Error::custom)",
+         "        if identifier == \"NONE\" {\n            return Ok(Self::None);\n        }\n        Self::try_from(identifier).map_err(serde::de::Error::custom)")]),
+    dict(id="x13-guarded-from-strict", base="benign2/C13/B.diff", fires=["C13"], key="skip", edits=[("src/webauthn.rs",
+         "(s.len() <= L).then(|| String::from(s))", "(s.len() < L).then(|| String::from(s))")]),
+    dict(id="x13-guarded-from-too-wide", base="benign2/C13/B.diff", fires=["C13", "C04"], key="fallible-conversion", edits=[("src/webauthn.rs",
+         "(s.len() <= L).then(|| String::from(s))", "(s.len() <= 2 * L).then(|| String::from(s))")]),
+    dict(id="x14-local-flag-overwritten", base="benign2/C14/B.diff", fires=["C14"], key="flag", edits=[("src/ctap2.rs",
+         "unknown |= format.is_none();", "unknown = format.is_none();")]),
+    dict(id="x08-chunks-handle-may-be-longer", base="benign2/C08/A.diff", fires=["C08"], key="ins2", edits=[("src/ctap1.rs",
+         "if key_handle.len() != usize::from(key_handle_length) {", "if key_handle.len() < usize::from(key_handle_length) {")]),
+    dict(id="x19-selector-shift-31", base="benign2/C19/A.diff", fires=["C19"], key="bounds", features="all", edits=[("src/arbitrary.rs",
+         "(u64::from(selector) * VARIANTS.len() as u64) >> 32", "(u64::from(selector) * VARIANTS.len() as u64) >> 31")]),
+    dict(id="x19-clamp-off-by-one", base="benign2/C19/B.diff", fires=["C19"], key="unwrap", features="all", edits=[("src/arbitrary.rs",
+         "let len = if requested > N { N } else { requested };", "let len = if requested > N + 1 { N } else { requested };")]),
+    dict(id="x07-counter-bytes-reordered", base="benign2/C03/A.diff", fires=["C07"], key="layout", edits=[("src/ctap2.rs",
+         "&[self.flags.bits(), count0, count1, count2, count3]", "&[self.flags.bits(), count1, count0, count2, count3]")]),
+    dict(id="x04-counting-loop-one-too-far", base="benign2/C14/A.diff", fires=["C04"], key="is_known_alg", edits=[("src/webauthn.rs",
+         "while i < COUNT_KNOWN_ALGS {", "while i <= COUNT_KNOWN_ALGS {")]),
+]
